@@ -80,19 +80,14 @@ Theorem C17_bwrap_exact : forall x y, wf x -> in_i64 y ->
 Proof. exact bwrap_correct. Qed.
 Print Assumptions C17_bwrap_exact.
 
-(* rotations: a rotation (count reduced mod BITS) only for |y| <= BITS; beyond, and for
-   mininteger, the unchanged code is not a rotation (known finding, replayed every run) *)
-Theorem C17_rotate_partial : forall x y, wf x -> - BINT_BITS <= y <= BINT_BITS ->
+(* rotations by ANY Lua integer count: rotl u k rotates the BITS-bit value u to the left by k mod BITS
+   (a negative count rotates to the right); as repaired in /repo by
+   "fix: bint rotations reduce the count modulo the bit width" *)
+Theorem C17_rotate_exact : forall x y, wf x -> in_i64 y ->
   (exists r, brol x y = Some r /\ wf r /\ uval r = rotl (uval x) y) /\
   (exists r, bror x y = Some r /\ wf r /\ uval r = rotl (uval x) (- y)).
-Proof. exact (fun x y Hx Hy => conj (brol_partial x y Hx Hy) (bror_partial x y Hx Hy)). Qed.
-Print Assumptions C17_rotate_partial.
-
-Theorem C17_rotate_refuted :
-  ~ (forall x y, wf x -> in_i64 y -> exists r, brol x y = Some r /\ wf r /\ uval r = rotl (uval x) y) /\
-  ~ (forall x y, wf x -> in_i64 y -> exists r, bror x y = Some r /\ wf r /\ uval r = rotl (uval x) (- y)).
-Proof. exact (conj brol_exact_refuted bror_exact_refuted). Qed.
-Print Assumptions C17_rotate_refuted.
+Proof. exact (fun x y Hx Hy => conj (brol_correct x y Hx Hy) (bror_correct x y Hx Hy)). Qed.
+Print Assumptions C17_rotate_exact.
 
 (* ---- conversions from and to Lua integers ---- *)
 Theorem C17_integer_conv_exact :
